@@ -16,7 +16,7 @@ CLASS_LAYER = [PA + 'Pauli.__matmul__#Pauli', PA + 'Pauli.__neg__', PA + 'Pauli.
                PA + 'PauliList.rotate_by#nomask', PA + 'PauliList.transform_by#nomask', PA + 'PauliList.rotate_by#mask', PA + 'PauliList.transform_by#mask', ST + 'CliffordMap.copy', ST + 'CliffordMap.compose',
                ST + 'CliffordMap.to_state#r', ST + 'CliffordMap.to_state#none', ST + 'StabilizerState.copy', ST + 'StabilizerState.to_map',
                ST + 'StabilizerState.expect#list', ST + 'identity_map', ST + 'StabilizerState.measure#list', ST + 'StabilizerState.measure#state', ST + 'StabilizerState.postselect',
-               ST + 'StabilizerState.expect#state', ST + 'CliffordMap.inverse', ST + 'clifford_rotation_map', ST + 'zero_state', ST + 'one_state', ST + 'maximally_mixed_state', ST + 'StabilizerState.entropy#mask', ST + 'StabilizerState.entropy#qubits', ST + 'StabilizerState.get_prob', PA + 'PauliPolynomial.__neg__', PA + 'PauliPolynomial.__rmul__', PA + 'PauliPolynomial.copy', ST + 'random_pauli_map', 'pyclifford/circuit.py::clifford_rotation_gate#noqubits', 'pyclifford/circuit.py::CliffordGate.compile#generator', 'pyclifford/circuit.py::CliffordGate.independent_from', 'pyclifford/circuit.py::MeasureLayer.obs_gs_ps', PA + 'PauliList.__getitem__#int', PA + 'Pauli.rotate_by#nomask', PA + 'Pauli.transform_by#nomask', 'pyclifford/circuit.py::MeasureLayer.forward', PA + 'PauliList.__neg__', PA + 'PauliList.rotate_by#state', PA + 'PauliList.transform_by#state', PA + 'PauliPolynomial.__matmul__#poly', PA + 'Pauli.__matmul__#Monomial',
+               ST + 'StabilizerState.expect#state', ST + 'CliffordMap.inverse', ST + 'clifford_rotation_map', ST + 'zero_state', ST + 'one_state', ST + 'maximally_mixed_state', ST + 'StabilizerState.entropy#mask', ST + 'StabilizerState.entropy#qubits', ST + 'StabilizerState.get_prob', ST + 'CliffordMap.embed', PA + 'PauliPolynomial.__neg__', PA + 'PauliPolynomial.__rmul__', PA + 'PauliPolynomial.copy', ST + 'random_pauli_map', 'pyclifford/circuit.py::clifford_rotation_gate#noqubits', 'pyclifford/circuit.py::CliffordGate.compile#generator', 'pyclifford/circuit.py::CliffordGate.independent_from', 'pyclifford/circuit.py::CliffordLayer.independent_from', 'pyclifford/circuit.py::MeasureLayer.obs_gs_ps', PA + 'PauliList.__getitem__#int', PA + 'Pauli.rotate_by#nomask', PA + 'Pauli.transform_by#nomask', 'pyclifford/circuit.py::MeasureLayer.forward', PA + 'PauliList.__neg__', PA + 'PauliList.rotate_by#state', PA + 'PauliList.transform_by#state', PA + 'PauliPolynomial.__matmul__#poly', PA + 'Pauli.__matmul__#Monomial',
                'pyclifford/circuit.py::CliffordGate.forward#generator_global', 'pyclifford/circuit.py::CliffordGate.backward#generator_global',
                'pyclifford/circuit.py::CliffordGate.forward#map_global'] + GATES[3:] + LOCAL_GATES + LOCAL_STATE + \
               [PA + '%s.__rmul__#%s' % (c, t) for c in ('Pauli', 'PauliList') for t in ('1', 'i', 'm1', 'mi')]
@@ -120,13 +120,13 @@ def C08(run):
 
 def C09(run):
     run.deductive(keys=[GATES[0], GATES[2], GATES[3], GATES[5], U + 'clifford_rotate', U + 'pauli_transform', PA + 'PauliList.rotate_by#state',
-                        PA + 'PauliList.transform_by#state', U + 'mask', PA + 'PauliList.rotate_by#mask', PA + 'PauliList.transform_by#mask', 'pyclifford/circuit.py::CliffordGate.independent_from'] + LOCAL_GATES + LOCAL_STATE,
+                        PA + 'PauliList.transform_by#state', U + 'mask', PA + 'PauliList.rotate_by#mask', PA + 'PauliList.transform_by#mask', 'pyclifford/circuit.py::CliffordGate.independent_from', 'pyclifford/circuit.py::CliffordLayer.independent_from', ST + 'CliffordMap.embed'] + LOCAL_GATES + LOCAL_STATE,
                   lemmas=MEASURE_LEMMAS + MASK_LEMMAS)
     run.bounded_check('c09_circuits', _b().c09_circuits, Nmax=3, programs=q(run, 40, 1500), maxlen=q(run, 5, 9), pack_len=q(run, 4, 5), pack_sample=q(run, 1500, 40000))
     return 'other', ('deductive (all N, all qubit tuples): a local generator / map gate acts on the compressed strings of its declared qubits exactly as '
                      'the small rotation / map and leaves every column of an undeclared qubit untouched (mask() = characteristic vector of the '
                      'qubit tuple, masked rotate_by / transform_by through the assumed numpy boolean-index semantics); full-register gates are '
-                     'the rotation / map; two gates are independent exactly when they share no qubit (the predicate layer packing rests on); bounded: layer packing (ALL support programs of <= 4 gates on N=3), copy / compose / compile '
+                     'the rotation / map; two gates are independent exactly when they share no qubit, a layer is independent from a gate exactly when none of its gates shares a qubit with it (the predicates layer packing rests on); bounded: layer packing (ALL support programs of <= 4 gates on N=3), copy / compose / compile '
                      'configurations and histories against gate-by-gate application')
 
 
